@@ -178,6 +178,9 @@ def run(ctx: Context, rep) -> None:
         "every `match` on the shard file type names only members of "
         "ShardFileTypeT and its fall-through arm raises")
     check_formats(ctx, rep)
+    from sa.rules import shared
+    shared.check_exit_propagates(ctx, rep, "C12.exit", modules=(C.ITER_MOD, ), floor=1)
+
 
 
 def check_select(ctx: Context, rep, sel) -> None:
